@@ -399,3 +399,54 @@ Proof.
   destruct (forallb _ es) eqn:E; simpl; auto.
   rewrite resolve_none; auto.
 Qed.
+
+(* ---------------------------------------------------------------- trigger independence *)
+(* whatever the first uses are (instantiation, __spec_class__, __dataclass_fields__, on the
+   class itself, on a subclass or on a parent first) and however they are interleaved: two
+   finished uses of the same class saw the same metadata, namely the eager one *)
+Theorem trigger_independent ct ts sched :
+  wf_table ct -> fresh_threads ct ts ->
+  let r := run true ct sched (init_state ct ts) in
+  forall i j ti tj oi oj,
+    nth_error (threads (fst r)) i = Some ti -> nth_error (threads (fst r)) j = Some tj ->
+    t_obs ti = Some oi -> t_obs tj = Some oj -> t_tgt ti = t_tgt tj ->
+    o_meta oi = o_meta oj /\ o_meta oi = Some (seq_meta ct (t_tgt ti)).
+Proof.
+  intros wf Hf r i j ti tj oi oj Hi Hj Hoi Hoj Ht.
+  destruct (guarded_safe ct ts sched wf Hf) as [H _]. fold r in H.
+  destruct (H i ti oi Hi Hoi) as [A _]. destruct (H j tj oj Hj Hoj) as [B _].
+  split; [rewrite A, B, Ht; reflexivity|exact A].
+Qed.
+
+(* every trigger kind alone, on a two-class chain: the use finishes, both bodies ran once *)
+Definition ct_two : table :=
+  [mkC [(0, CAttr DFactory false true true); (1, CVal); (2, CAbsent)] (Some (Some 1)) false;
+   mkC [(3, CAttr DValue true false true); (0, CAbsent)] None true].
+
+Definition finishes_once (inst via : bool) (tgt : nat) : bool :=
+  let r := run true ct_two (repeat 0 80) (init_state ct_two [start inst via tgt]) in
+  match threads (fst r) with
+  | [t] => match t_ph t, t_obs t with
+           | Done, Some _ => forallb (fun c => Nat.eqb (count_enter c (snd r)) 1) (seq 0 (S tgt))
+           | _, _ => false
+           end
+  | _ => false
+  end.
+
+Lemma every_trigger_finishes :
+  forallb (fun u => finishes_once (fst (fst u)) (snd (fst u)) (snd u))
+    [(true, false, 1); (false, false, 1); (false, true, 1); (true, false, 0); (false, false, 0); (false, true, 0)] = true.
+Proof. vm_compute. reflexivity. Qed.
+
+(* three threads, interleaved round-robin: everybody finishes *)
+Lemma three_threads_finish :
+  let ts := [start true false 1; start false true 1; start false false 0] in
+  let r := run true ct_two (flat_map (fun _ => [0; 1; 2]) (seq 0 90)) (init_state ct_two ts) in
+  forallb (fun t => match t_ph t with Done => true | _ => false end) (threads (fst r)) = true /\
+  count_enter 0 (snd r) = 1 /\ count_enter 1 (snd r) = 1.
+Proof. vm_compute. repeat split; reflexivity. Qed.
+
+Lemma ct_two_wf : wf_table ct_two.
+Proof.
+  intros d [<-|[<-|[]]]; simpl; repeat constructor; simpl; intuition discriminate.
+Qed.
